@@ -99,8 +99,18 @@ NODES = {
     "c": ("int", None, "5", "s", [dict(k="const", ind=4)], [], None),
     "p": ("float", None, "2.5", None, [], [("3.5", None), ("4.5", None)], ("9.5", None)),
     "u": ("float", [[4, 4]], ["10", "20", "30", "40"], "cm", [], [], None),
+    # documented-legal name characters: letters, numbers, underscores, hyphens (dots separate levels)
+    "out-dir": ("str", None, S("out"), None, [], [(S("tmp-1"), None), (S("res_2"), None)], (S("late-r"), None)),
+    "n_x-2": ("int", None, "3", "m", [], [("400", "cm"), ("5", None)], ("9", None)),
 }
 # the value "3e8" is decimal text readable by Fraction: 3e8 erg = 30 J
+
+
+def split_tail():
+    """the groups g and g.sub are extended AFTER unrelated nodes: by path notation and by re-opening the group"""
+    return [D("lid", "int", "2"), D("g.late", "int", "6"), GRP("g"), D("late2", "float", "7.5", "m", None, 2),
+            D("lid2", "str", S("u")), D("g.sub.m", "int", "9"), GRP("gx"), D("b", "int", "1", ind=2),
+            D("g.sub.deep.x", "int", "4")]
 
 
 def tree(names, extra=False):
@@ -147,7 +157,7 @@ def host_dims(n, sl, hd):
 # ------------------------------------------------------------------------------------------------ E2 families
 def fam_inject_def(tier, src=None):
     """h <type> = {?g.x}[slice] [unit]   after 0-2 modifications of g.x; then source or host modified"""
-    for n in ("f", "i", "s", "b", "v", "m", "w", "o", "e"):
+    for n in ("f", "i", "s", "b", "v", "m", "w", "o", "e", "out-dir", "n_x-2"):
         typ, dims, val, unit, props, mods, later = NODES[n]
         companions = [c for c in ("i", "f") if c != n][:1]
         names = [n] + companions if n != "f" else ["i", "f"]
@@ -183,10 +193,16 @@ def fam_inject_def(tier, src=None):
 
 def fam_inject_mod(tier, src=None):
     """h defined with its own unit, then  h = {?g.x} [unit]"""
-    for n in ("f", "i", "s", "b", "o", "e", "v"):
+    for n in ("f", "i", "s", "b", "o", "e", "v", "out-dir", "n_x-2"):
         typ, dims, val, unit, props, mods, later = NODES[n]
         names = [n, "i"] if n != "i" else ["i", "f"]
         variants = []
+        if n == "out-dir":
+            variants.append((D("h", "str", S("old")), None, "host-def=plain", "mod-unit=none", None))
+            variants.append((D("h", "str", None), None, "host-def=declared", "mod-unit=none", None))
+        if n == "n_x-2":
+            variants.append((D("h", "int", "7", "cm"), None, "host-def=host-convertible", "mod-unit=adopted", None))
+            variants.append((D("h", "int", "7", "m"), "km", "host-def=host-same", "mod-unit=stated-km", None))
         if n == "f":
             for hdef, tag in (("cm", "host-convertible"), ("m", "host-same"), ("s", "host-other-dimension")):
                 for hu, utag in ((None, "adopted"), ("km", "stated-km"), ("m", "stated-m"), ("s", "stated-s")):
@@ -239,6 +255,10 @@ def fam_inject_mod(tier, src=None):
 def fam_inject_bad(tier, src=None):
     """requests that select no node or several: the injection must be rejected"""
     names = ["f", "i", "s"]
+    # a node defined in a later block of its group is found by its exact path
+    for typ, q, hu in (("int", "g.late", None), ("float", "g.late2", "cm"), ("int", "g.sub.m", None)):
+        yield (["statement=injection-definition", "layout=split", "query=" + q, "type=" + typ],
+               tree(names, extra=True) + split_tail(), [D("h", typ, REF(q, None, src), hu)], [])
     for q, tag in (("g.x", "none"), ("x", "none"), ("g", "none-group-name"), ("g.*", "several"), ("*", "several"),
                    ("g.f.*", "none"), ("f", "none-relative-name")):
         for typ, val in (("float", "7"), ("int", "7"), ("str", S("old"))):
@@ -255,21 +275,38 @@ IMPORT_FORMS = [
     ("named", lambda q, s: [IMP(q, "bag", s, 0)]),
     ("named-under-group", lambda q, s: [GRP("box"), IMP(q, "bag", s, 2)]),
     ("dotted-name", lambda q, s: [IMP(q, "basket.bag", s, 0)]),
+    ("hyphen-name", lambda q, s: [IMP(q, "my-bag_2", s, 0)]),
 ]
-IMP_NAMES = ["f", "i", "s", "b", "v", "o", "e", "t", "c"]
+IMP_NAMES = ["f", "i", "s", "b", "v", "o", "e", "t", "c", "out-dir", "n_x-2"]
 
 
 def _imp_prefix(form):
     return {"root": "", "under-group": "box.", "named": "bag.", "named-under-group": "box.bag.",
-            "dotted-name": "basket.bag."}[form]
+            "dotted-name": "basket.bag.", "hyphen-name": "my-bag_2."}[form]
 
 
 def fam_import(tier, src=None):
     """imports of children / single node / everything, with modifications before and after"""
     queries = [("g.*", "children"), ("g.f", "single"), ("g.o", "single-with-options"), ("g.sub.*", "sub-children"),
-               ("g.sub.n", "single-deep"), ("*", "all"), ("g.v", "single-array"), ("g.e", "single-with-condition")]
+               ("g.sub.n", "single-deep"), ("*", "all"), ("g.v", "single-array"), ("g.e", "single-with-condition"),
+               ("g.out-dir", "single-hyphen"), ("g.n_x-2", "single-hyphen-underscore")]
     pre_variants = [("0", []), ("1", premods("f", 1) + premods("o", 1) + premods("s", 1) + premods("e", 1)),
                     ("2", premods("f", 2) + premods("i", 2) + premods("b", 1) + premods("e", 2))]
+    # layout "split": groups extended later, after unrelated nodes (all descendants must still be found)
+    for (q, qtag), (form, build), (ktag, pm) in itertools.product(
+            [("g.*", "children"), ("g.sub.*", "sub-children"), ("gx.*", "sibling-children"), ("*", "all"),
+             ("g.sub.deep.*", "deep-children"), ("g.late2", "single-late")], IMPORT_FORMS, pre_variants[:2]):
+        pre = tree(IMP_NAMES, extra=True) + split_tail() + pm
+        stm = build(q, src)
+        px = _imp_prefix(form)
+        base = ["statement=import", "query=" + qtag, "form=" + form, "source-modified-before=" + ktag,
+                "layout=split"]
+        yield base + ["after=nothing"], pre, stm, []
+        if qtag == "children":
+            yield base + ["after=import-modified", "target=late"], pre, stm, [M(px + "late", "8")]
+            yield base + ["after=original-modified", "target=late2"], pre, stm, [M("g.late2", "9.5")]
+            yield (base + ["after=extended-after-import"], pre, stm,
+                   [D("g.later", "int", "1"), IMP("g.*", "again", src)])
     for (q, qtag), (form, build), (ktag, pm) in itertools.product(queries, IMPORT_FORMS, pre_variants):
         pre = tree(IMP_NAMES, extra=True) + pm
         stm = build(q, src)
@@ -376,6 +413,8 @@ def fam_import_empty(tier, src=None):
 def _ren_src(path, splace):
     if not path.startswith("g."):
         return path
+    if splace == "hyphen":
+        return "my-g_1." + path[2:]
     return path[2:] if splace == "root" else "g.sub." + path[2:]
 
 
@@ -398,9 +437,11 @@ def reloc_src(prog, splace):
             body = True
             if splace == "nested":
                 out += [st, GRP("sub", 2)]
+            elif splace == "hyphen":
+                out.append(GRP("my-g_1"))
             continue
         if body and st.get("ind", 0) >= 2:
-            st["ind"] += 2 if splace == "nested" else -2
+            st["ind"] += 2 if splace == "nested" else (0 if splace == "hyphen" else -2)
         else:
             body = False
             if st["k"] in ("mod", "def"):
@@ -434,8 +475,8 @@ def reloc_host(prog, hplace):
     return out
 
 
-PLACES = dict(quick=[("g", "root"), ("root", "in-group"), ("nested", "dotted")],
-              thorough=[(a, b) for a in ("g", "root", "nested") for b in ("root", "in-group", "dotted")])
+PLACES = dict(quick=[("g", "root"), ("root", "in-group"), ("nested", "dotted"), ("hyphen", "root")],
+              thorough=[(a, b) for a in ("g", "root", "nested", "hyphen") for b in ("root", "in-group", "dotted")])
 PLACED_FAMILIES = ("inject_def", "inject_mod")
 
 
@@ -713,6 +754,12 @@ def chain_alphabet():
     A["modify-constrained"] = [M("o", "3"), M("c", "3e8", "erg")]
     A["inject"] = [D("h", "float", REF("g.f"), "cm"), D("t", "str", REF("g.s", [[5, None]])),
                    GRP("hg"), D("part", "float", REF("g.u", [[1, 3]]), None, [[1, None]], 2)]
+    A["extend-group"] = [D("lid0", "int", "2"), D("g.late", "int", "6"), D("g.out-dir", "str", S("out")),
+                         D("t2", "str", REF("g.out-dir"))]
+    # documentation parse on top of the current environment: it returns no environment, and must leave the one
+    # it was given as it was (a later normal parse still rejects dangling references)
+    A["docs:define"] = A["define"]
+    A["docs:more"] = [GRP("dd"), D("x", "int", "1", ind=2), D("y", "float", "2", "m", ind=2)]
     A["import-sliced"] = [IMP("hg.*", "cp"), M("hg.part", ["7.5", "8.5"]), M("g.i", G.NONE), D("e1", "int", REF("g.i"))]
     A["inject-modify"] = [M("g.i", REF("o")), M("g.f", REF("c"), "mm")]
     A["import"] = [IMP("g.*", "bag")]
@@ -725,7 +772,8 @@ def chain_alphabet():
 
 
 CHAIN_QUICK = ["define", "define-constrained", "modify", "modify-constrained", "inject", "inject-modify", "import",
-               "import-sliced", "unit", "use-unit", "fail-option", "fail-late", "fail-inject"]
+               "import-sliced", "extend-group", "docs:define", "docs:more", "unit", "use-unit", "fail-option", "fail-late",
+               "fail-inject"]
 
 
 def run_history(hist, sh=None):
@@ -739,18 +787,39 @@ def run_history(hist, sh=None):
     cur, rcur = None, None
     demanded = True
     bad = None
+    bad_mode = None      # only the mode flag of an earlier environment changed: reported when nothing else is wrong
     for k, name in enumerate(hist):
         prog = A[name]
+        case = dict(history=list(hist[:k + 1]))
+        if name.startswith("docs:"):
+            out, text = G.execute(prog, _scratch(), base_env=cur, name="step%d" % k, docs=True)
+            for (j, e, dump0, _r) in envs:
+                d = G.observe_env(e)
+                if d[:2] != dump0[:2] and bad is None:
+                    bad = failure("chaining/base-unchanged", case, _short(dump0), _short(d),
+                                  tags=["step=%s" % name, "outcome=" + out[0], "base-step=%s" % hist[j]],
+                                  behaviour="base-environment-changed:" + _dumpdiff(dump0, d))
+                elif d != dump0 and bad_mode is None:
+                    bad_mode = failure("chaining/base-unchanged", case, _short(dump0), _short(d),
+                                       tags=["step=%s" % name, "outcome=" + out[0], "base-step=%s" % hist[j]],
+                                       behaviour="base-environment-changed:" + _dumpdiff(dump0, d))
+            if sh is not None:
+                sh.transitions += 1
+                sh.count("chain:docs-step")
+            continue          # no new environment: the next step continues from the same one
         ref = G.interpret(prog, base=rcur) if demanded else ("undemanded", "")
         out, text = G.execute(prog, _scratch(), base_env=cur, name="step%d" % k)
-        case = dict(history=list(hist[:k + 1]))
         # invariant 1: all earlier environments unchanged
         for (j, e, dump0, _r) in envs:
             d = G.observe_env(e)
-            if d != dump0 and bad is None:
+            if d[:2] != dump0[:2] and bad is None:
                 bad = failure("chaining/base-unchanged", case, _short(dump0), _short(d),
                               tags=["step=%s" % name, "outcome=" + out[0], "base-step=%s" % hist[j]],
                               behaviour="base-environment-changed:" + _dumpdiff(dump0, d))
+            elif d != dump0 and bad_mode is None:
+                bad_mode = failure("chaining/base-unchanged", case, _short(dump0), _short(d),
+                                   tags=["step=%s" % name, "outcome=" + out[0], "base-step=%s" % hist[j]],
+                                   behaviour="base-environment-changed:" + _dumpdiff(dump0, d))
         if sh is not None:
             sh.transitions += 1
         # invariant 2: the result equals the reference interpretation of the history
@@ -787,7 +856,7 @@ def run_history(hist, sh=None):
                 demanded = False
             if sh is not None:
                 sh.count("chain:failing-step")
-    return bad
+    return bad or bad_mode
 
 
 def _short(d):
@@ -795,6 +864,8 @@ def _short(d):
 
 
 def _dumpdiff(a, b):
+    if a[2:] != b[2:]:
+        return "environment-mode"
     if a[1] != b[1]:
         return "custom-units"
     na, nb = [x[0] for x in a[0]], [x[0] for x in b[0]]
@@ -935,10 +1006,13 @@ MANIFEST = dict(
          "source, host or imported node; hosts defined by a single-axis sliced injection that are afterwards "
          "imported / modified / injected / sliced again; referenced nodes emptied by `= none` (or defined as none, or "
          "refilled) before the injection, for every host type; option/tag lines below a single-node import (the "
-         "copy is extended, the original, the remote source and other imports are not); all locally and through a remote file ($source and "
+         "copy is extended, the original, the remote source and other imports are not); groups extended later "
+         "after unrelated nodes (path notation, re-opened group, later parse); hyphens/underscores/digits in node, "
+         "group and import names; all locally and through a remote file ($source and "
          "add_source); requests "
          "selecting none/several.  Plus explicit-state exploration of all DIP(env) chaining histories up to depth 3 "
-         "(quick) / 4 (thorough) over 13 programs (incl. 3 failing ones): every earlier environment stays unchanged "
+         "(quick) / 4 (thorough) over 16 programs (incl. 3 failing ones and 2 parse_docs() steps that must leave the "
+         "environment they were given unchanged, mode flag included): every earlier environment stays unchanged "
          "and every result equals the reference.",
     note="Trusted: reference interpreter of the generator AST (exact rationals, own SI factors); dump of an "
          "environment = nodes with all constraint fields + custom units (sources excluded by the statement).",
